@@ -234,7 +234,14 @@ class Model(object):
     if op == "num":
       return F(e[1])
     if op == "var":
-      return env[e[1]]
+      try:
+        return env[e[1]]
+      except KeyError:
+        # exprtk resolves symbols case-insensitively: 'a' in a formula is the parameter 'A' of its signature
+        for k_, v_ in env.items():
+          if k_.lower() == e[1].lower():
+            return v_
+        raise
     if op == "neg":
       return -self.eval_expr(e[1], env, env_at)
     if op in "+-*/^":
